@@ -2,11 +2,13 @@
   Registry of oracle op handlers: (op prefix, handler). One line per domain.
 -/
 import Oracle.Avc
+import Oracle.Aac
 
 namespace Oracle
 
 def handlers : List (String × (String → List String → Option String)) := [
-  ("avc.", Oracle.Avc.handle)
+  ("avc.", Oracle.Avc.handle),
+  ("adts.", Oracle.Aac.handle), ("asc.", Oracle.Aac.handle), ("aac.", Oracle.Aac.handle)
 ]
 
 def dispatch (op : String) (args : List String) : Option String :=
